@@ -15,6 +15,11 @@ RULES = {
              'branch on the body path depends on payload bytes',
     'C18.K': 'heartbeat: the literal is the fixed 8 octets; the decoder '
              'produces a Heartbeat under type == 8 and size == 0',
+    'C18.R': 'composed round trip by rewriting: substituting the encoder\'s '
+             'residual output for the buffer, the decoded body value is the '
+             'original value, consumed = encoded length, channel = channel '
+             'argument and all path conditions hold (for non-empty bodies); '
+             'likewise the protocol-header version triple and the heartbeat',
     'C18.V': 'protocol header: written as b"AMQP", 0, major, minor, '
              'revision (octets); read back from offsets 5, 6, 7 into the '
              'same attributes; 8 consumed on channel 0',
@@ -190,7 +195,89 @@ def run(chk, ctx):
             a[3] is Sym('field', 'revision')
     chk.ob('C18.V', 'protocol header encode', okv,
            'marshal -> %s' % T.show(v)[:100], site='pamqp/header.py')
+    composed(chk, ctx, f, marshal_of)
     chk.floor('C18.B', 4, 'body facts')
     chk.floor('C18.V', 2, 'protocol header facts')
     chk.floor('C18.K', 2, 'heartbeat facts')
     chk.assume('a 131 072-byte body fits in memory')
+
+
+def composed(chk, ctx, f, marshal_of):
+    from .. import wire
+    prog = ctx.prog
+    ax = wire.build_axioms(ctx)
+    data = f.data
+    site = 'pamqp/frame.py::marshal / unmarshal'
+    # ---- body (non-empty)
+    bval = Sym('typed', Sym('field', 'value'), ('bytes',), None)
+    w, _it, _outs = marshal_of('body.ContentBody', {'value': bval})
+    kn = T.Knowledge()
+    kn.assume(T.compare('gt', T.length(bval), 0))  # non-empty body
+    rets = [r for r in f.rets if f.kind_of(r) == 'body']
+    if w is None or len(rets) != 1:
+        chk.undecide('C18.R', 'body', 'no single encode term / decode '
+                     'return for the body kind')
+    else:
+        r = rets[0]
+        rw = wire.Rewriter(data, w, ax, kn)
+        total = rw.length(rw.wire, frozenset())
+        n2, ch2 = rw.rw(r.n), rw.rw(r.ch)
+        v2 = rw.rw(r.obj.attrs.get('value'))
+        badc = []
+        for a in r.kn.atoms:
+            if isinstance(a, Sym):
+                v = rw.rw(a)
+                if v is not True:
+                    badc.append('%s -> %s' % (T.show(a)[:60],
+                                              T.show(v)[:60]))
+        chk.ob('C18.R', 'body', T.sub(n2, total) == 0 and
+               ch2 is Sym('param', 'channel_id') and v2 is bval and
+               not badc,
+               'decode(encode(body, ch)): value %s, consumed %s of %s, '
+               'channel %s%s' % (
+                   'unchanged' if v2 is bval else T.show(v2)[:60],
+                   T.show(n2)[:40], T.show(total)[:40], T.show(ch2)[:30],
+                   '; conditions not established: %s' % badc[:2]
+                   if badc else ''), site=site)
+    # ---- protocol header
+    names = ('major_version', 'minor_version', 'revision')
+    w, _it, _outs = marshal_of('header.ProtocolHeader', {
+        k: Sym('typed', Sym('field', k), ('int',), (0, 255))
+        for k in names})
+    rets = [r for r in f.rets if f.kind_of(r) == 'protocol']
+    if w is None or len(rets) != 1:
+        chk.undecide('C18.R', 'protocol header', 'no single term / return')
+    else:
+        r = rets[0]
+        rw = wire.Rewriter(data, w, ax, T.Knowledge())
+        total = rw.length(rw.wire, frozenset())
+        vals = [rw.rw(r.obj.attrs.get(k)) for k in names]
+        want = [Sym('typed', Sym('field', k), ('int',), (0, 255))
+                for k in names]
+        badc = [T.show(a)[:60] for a in r.kn.atoms
+                if isinstance(a, Sym) and rw.rw(a) is not True]
+        chk.ob('C18.R', 'protocol header',
+               all(v is w_ for v, w_ in zip(vals, want)) and
+               rw.rw(r.n) == total == 8 and rw.rw(r.ch) == 0 and not badc,
+               'decode(encode(major, minor, revision)) = (%s), consumed %s '
+               'of %s%s' % (', '.join(T.show(v)[:30] for v in vals),
+                            T.show(rw.rw(r.n)), T.show(total),
+                            '; conditions not established: %s' % badc[:2]
+                            if badc else ''), site=site)
+    # ---- heartbeat
+    w, _it, _outs = marshal_of('heartbeat.Heartbeat', {})
+    rets = [r for r in f.rets if f.kind_of(r) == 'heartbeat']
+    if not isinstance(w, bytes) or len(rets) != 1:
+        chk.undecide('C18.R', 'heartbeat', 'no constant frame / return')
+    else:
+        r = rets[0]
+        rw = wire.Rewriter(data, w, ax, T.Knowledge())
+        badc = [T.show(a)[:60] for a in r.kn.atoms
+                if isinstance(a, Sym) and rw.rw(a) is not True]
+        chk.ob('C18.R', 'heartbeat', rw.rw(r.n) == len(w) and
+               rw.rw(r.ch) == 0 and not badc,
+               'decode(Heartbeat.marshal()) consumes %s of %d bytes on '
+               'channel %s%s' % (T.show(rw.rw(r.n)), len(w),
+                                 T.show(rw.rw(r.ch)),
+                                 '; conditions not established: %s' %
+                                 badc[:2] if badc else ''), site=site)
